@@ -3,7 +3,7 @@
    run = command_replay/print_graph_rstack over func_stack[], srun = reference semantics). *)
 From Coq Require Import NArith List Bool Sorting.Sorted.
 Import ListNotations.
-Require Import UV.C06.Model UV.C06.MergeProofs UV.C06.Proofs UV.C06.FmtProofs.
+Require Import UV.C06.Model UV.C06.MergeProofs UV.C06.Proofs UV.C06.FmtProofs UV.C06.TidView.
 Require Import UV.C06.Sched UV.C06.SchedProofs.
 Local Open Scope N_scope.
 
@@ -215,3 +215,10 @@ Theorem C06_sched_pair_neutral : forall inh ts i a b k,
   f_time (fget (t_stack ts2) (t_sc ts2)) = b - a.
 Proof. exact sched_pair_neutral. Qed.
 Print Assumptions C06_sched_pair_neutral.
+
+(* The --tid view task by task, for ALL queues and ALL selections: in the merged stream of the selected tasks a
+   selected task has exactly its own records in its own order and an unselected task has none. *)
+Theorem C06_tid_view_per_task : forall S qs i,
+  proj i (merge (mask S qs 0)) = if S i then nth i qs [] else [].
+Proof. exact tid_view_per_task. Qed.
+Print Assumptions C06_tid_view_per_task.
